@@ -57,3 +57,6 @@ Definition slice {A} (l : list A) (a b : nat) : list A := firstn (b - a) (skipn 
 
 (* the ReFlags fields a flag letter can set (re_flags.rs); the letter -> field table is generated *)
 Inductive flagfield := FCase | FMulti | FSingle | FLiteral | FWhitespace.
+
+Definition is_digit (c : N) : bool := (N.leb 48 c) && (N.leb c 57).
+Definition dval (c : N) : nat := N.to_nat (c - 48).
